@@ -1105,6 +1105,49 @@ where
 {
 }
 
+/// Verification hook: a deep expression as a tree.
+#[cfg(exmex_verif)]
+#[derive(Clone, Debug, PartialEq)]
+pub enum VerifDeepStructure<T> {
+    Num(T),
+    Var(usize, String),
+    /// nodes, binary operators `(index, priority, is_commutative)`, unary operator indices
+    Expr(Vec<VerifDeepStructure<T>>, Vec<(usize, i64, bool)>, Vec<usize>),
+}
+
+#[cfg(exmex_verif)]
+impl<T, OF, LM> DeepEx<'_, T, OF, LM>
+where
+    T: DataType,
+    OF: MakeOperators<T>,
+    LM: MatchLiteral,
+    <T as FromStr>::Err: Debug,
+{
+    pub fn verif_structure(&self) -> VerifDeepStructure<T> {
+        VerifDeepStructure::Expr(
+            self.nodes
+                .iter()
+                .map(|n| match n {
+                    DeepNode::Num(x) => VerifDeepStructure::Num(x.clone()),
+                    DeepNode::Var((i, name)) => VerifDeepStructure::Var(*i, name.clone()),
+                    DeepNode::Expr(e) => e.verif_structure(),
+                })
+                .collect(),
+            self.bin_ops
+                .ops
+                .iter()
+                .map(|o| (o.idx, o.op.prio, o.op.is_commutative))
+                .collect(),
+            self.unary_op
+                .op
+                .funcs_to_be_composed()
+                .iter()
+                .map(|f| f.idx)
+                .collect(),
+        )
+    }
+}
+
 impl<T, OF, LM> Display for DeepEx<'_, T, OF, LM>
 where
     T: DataType,
